@@ -46,8 +46,9 @@ def replay(system, hist):
     return ctx, model, problems
 
 
-def explore(system, depth, report, prop, roots=((),), stats=None):
-    """BFS to the given depth. Violating states are reported and not expanded further."""
+def explore(system, depth, report, prop, roots=((),), stats=None, merge=True):
+    """BFS to the given depth. Violating states are reported and not expanded further.
+    merge=False explores every history (no state matching): robust against state the key cannot see."""
     seen = set()
     frontier = deque()
     nstates = ntrans = nchecks = 0
@@ -78,7 +79,7 @@ def explore(system, depth, report, prop, roots=((),), stats=None):
                     report.violate(sig, f"history {nh}: {desc}", {"engine": "E2", "history": nh}, len(nh))
                 system.cleanup(ctx)
                 continue
-            k = system.key(ctx, model)
+            k = system.key(ctx, model) if merge else tuple(nh)
             system.cleanup(ctx)
             if k not in seen:
                 seen.add(k)
